@@ -4,6 +4,7 @@ import (
 	"fmt"
 	"go/token"
 	"go/types"
+	"sort"
 
 	"golang.org/x/tools/go/ssa"
 )
@@ -348,6 +349,63 @@ func c09Gate(c *Ctx, r *Report, w, ev *ssa.Function) {
 	r.floor("C09.GATE", "dispatch calls (field, inline fragment, fragment spread)", n, 3)
 	c09Only(c, r, w, ev, reach)
 	c09Attach(c, r)
+	importRules(c, r, "C11", "C09.FROZEN", "resolution does not write into the selection sets, directive lists or fragments of the parsed request (the C11 effect summary restricted to those locations): a selection filtered out in place under one set of variable values is missing when the same parsed request is evaluated with other values",
+		"C11.PURE~Sels", "C11.PURE~Dirs", "C11.PURE~DirectiveUse", "C11.PURE~FragRef", "C11.PURE~Fragment", "C11.PURE~all other summarised writes")
+	c09Ctx(c, r)
+}
+
+// c09Ctx: SetContextRecursive is the one documented way to touch a parsed request between parse and resolve.
+// Its write summary (all functions it reaches) may contain Field.Context and nothing else of the request:
+// a walk that rebuilds selection lists can drop the directives written on a selection.
+func c09Ctx(c *Ctx, r *Report) {
+	r.rule("C09.CTX", "the write summary of SetContextRecursive (Executable and SelBase) contains, of the request's locations, only Field.Context")
+	var roots []*ssa.Function
+	for _, n := range []string{"(*Executable).SetContextRecursive", "(*SelBase).SetContextRecursive"} {
+		if fn := c.fn(n); fn != nil {
+			roots = append(roots, fn)
+		}
+	}
+	if len(roots) == 0 {
+		r.undecided("C09.CTX", "anchors SetContextRecursive", token.NoPos, "not found")
+		return
+	}
+	eng := newEffEngine(c)
+	eng.run(roots...)
+	n := 0
+	seen := map[string]bool{}
+	for _, root := range roots {
+		s := eng.sums[root]
+		if s == nil {
+			continue
+		}
+		r.fnSeen(fnName(root))
+		var keys []string
+		for k := range s.effects {
+			keys = append(keys, k)
+		}
+		sort.Strings(keys)
+		bad := 0
+		for _, k := range keys {
+			ef := s.effects[k]
+			if !writeKinds[ef.kind] {
+				continue
+			}
+			n++
+			inReq := ef.target.kind == rParam || (requestTypes[ef.owner] && !isFreshTarget(ef.target))
+			if !inReq || (ef.owner == "Field" && ef.field == "Context") {
+				continue
+			}
+			bad++
+			key := fmt.Sprintf("%s: %s", fnName(ef.fn), ef.descr())
+			if seen[key] {
+				continue
+			}
+			seen[key] = true
+			r.add("C09.CTX", key, ef.pos, Violated, "setting the context rewrites the request ("+ef.target.String()+"): a selection rebuilt here loses the @skip/@include written on the original, so an excluded fragment spread is resolved")
+		}
+		r.check("C09.CTX", fnName(root)+": writes only Field.Context into the request", root.Pos(), bad == 0, fmt.Sprintf("%d write(s) into other request locations", bad))
+	}
+	r.floor("C09.CTX", "write effects of SetContextRecursive examined", n, 1)
 }
 
 // c09Attach: the directives the evaluator sees for a selection are the ones written on that selection. A
